@@ -22,6 +22,8 @@ PROP = dict(
         "fvar_bounds_ordered",
         "fvar_bounds_are_source_bounds",
         "named_instance_in_axis_range",
+        "omitted_axis_coordinate_is_fvar_default",
+        "named_instance_record_in_range",
         "map_reverse_roundtrip",
         "avar_agrees_refuted_nonmonotone",
     ],
@@ -34,7 +36,7 @@ PROP = dict(
          "design values identity / linear / general with flat runs and non-integer steps; default at first, last "
          "or inner row; source order shuffled; adversarial classes: design flat from the default to an end of the "
          "axis, rows beyond the axis bounds, non-monotone (stats only), no map at all. Stream B compiles "
-         "designspace+UFO sources (1-3 axes, 0-3 named instances) and stream C .glyphs sources (Axis Mappings) "
+         "designspace+UFO sources (1-3 axes, 0-4 named instances, a third of them with a <location> that leaves out one or more axes) and stream C .glyphs sources (Axis Mappings) "
          "through fontc::generate_font and reads fvar/avar back with read-fonts and skrifa's normaliser; a "
          "fixed corpus of six boundary sources runs first. Stream A drives fontbe::avar::to_segment_map (hook) "
          "and the converter directly. Per axis the predicate is evaluated at every row, segment midpoints, "
